@@ -706,8 +706,10 @@ func (s *state) evaldef(n ast.Node) data.Value {
 	return val
 }
 
+// The same character references as soy.$$escapeHtml in soyutils.js writes, so
+// that the Go renderer and the generated JavaScript produce the same bytes.
 var (
-	htmlQuot = []byte("&#34;") // shorter than "&quot;"
+	htmlQuot = []byte("&quot;")
 	htmlApos = []byte("&#39;") // shorter than "&apos;" and apos was not in HTML until HTML5
 	htmlAmp  = []byte("&amp;")
 	htmlLt   = []byte("&lt;")
